@@ -1052,6 +1052,8 @@ func (self *Assembler) _asm_OP_recurse(p *ir.Instr) {
 	self.Emit("MOVQ", _ARG_fv, _SI) // MOVQ  $fv, SI
 	if pv {
 		self.Emit("BTSQ", jit.Imm(alg.BitPointerValue), _SI) // BTSQ $1, SI
+	} else {
+		self.Emit("BTRQ", jit.Imm(alg.BitPointerValue), _SI) // BTRQ $1, SI
 	}
 
 	self.call_encoder(_F_encodeTypedPointer) // CALL  encodeTypedPointer
